@@ -107,7 +107,7 @@ func parseSingleConstraint(c string) ([]*constraint, error) {
 	}
 
 	// Handle x-range (1.x, 1.2.x)
-	if strings.Contains(c, "x") || strings.Contains(c, "X") {
+	if isXRange(c) {
 		return parseXRange(c)
 	}
 
@@ -122,6 +122,17 @@ func parseSingleConstraint(c string) ([]*constraint, error) {
 
 	// Default to exact match
 	return []*constraint{{operator: "=", version: c}}, nil
+}
+
+// isXRange reports whether a constraint has an "x" in place of a version
+// component. An "x" inside a pre-release or build identifier (>=1.0.0-next.1)
+// is ordinary text and does not make the constraint an x-range.
+func isXRange(c string) bool {
+	core := c
+	if i := strings.IndexAny(core, "-+"); i >= 0 {
+		core = core[:i]
+	}
+	return strings.ContainsAny(core, "xX")
 }
 
 // parseCaretRange handles caret ranges (^1.2.3)
